@@ -4,6 +4,7 @@ import (
 	"bytes"
 	"crypto"
 	"encoding/asn1"
+	"errors"
 	"time"
 
 	"github.com/emmansun/gmsm/cfca"
@@ -367,7 +368,8 @@ func (x *c16X) doDeliver(o sim.Op) {
 	a, b, cc := o.Int(2), o.Int(3), o.Int(4)
 	party, vmode, variant := o.Int(5), c16Mod(o.Int(6), 4), c16Mod(o.Int(7), 5)
 	x.via, x.at = c16Mod(o.Int(8), 5), c16Mod(o.Int(9), len(c16AtTimes)+1)
-	defer func() { x.via, x.at = 0, 0 }()
+	x.empty = c16Mod(o.Int(10), 2) == 1
+	defer func() { x.via, x.at, x.empty = 0, 0, false }()
 	d := x.buildFault(m, f, a, b, cc, o.Bytes(0))
 	if d == nil {
 		d = x.byteAlter(m, a, b)
@@ -617,12 +619,16 @@ func (x *c16X) judgeSigned(m *c16Msg, d *c16Dlv, vmode int) c16Res {
 		}
 	}
 	trust := vmode == 1 || vmode == 2
+	pool := w.pool
+	if x.empty && trust {
+		pool = smx509.NewCertPool() // "if truststore is not nil, it also verifies the chain of trust ... to a root in the truststore": there is none
+	}
 	var verr error
 	switch {
 	case m.asDigest && vmode == 3:
 		verr = cfca.VerifyDigestDetach(d.data, supplied)
 	case m.asDigest && trust:
-		verr = p7.VerifyAsDigestWithChain(w.pool)
+		verr = p7.VerifyAsDigestWithChain(pool)
 	case m.asDigest:
 		verr = p7.VerifyAsDigest()
 	case vmode == 3 && (m.detached || d.viaDetach):
@@ -635,13 +641,20 @@ func (x *c16X) judgeSigned(m *c16Msg, d *c16Dlv, vmode int) c16Res {
 			now = time.Unix(c16AtTimes[x.at-1], 0).UTC()
 			c.Hit("probe:verify-at-explicit-time")
 		}
-		verr = p7.VerifyWithChainAtTime(w.pool, &now)
+		verr = p7.VerifyWithChainAtTime(pool, &now)
 	case vmode == 1:
-		verr = p7.VerifyWithChain(w.pool)
+		verr = p7.VerifyWithChain(pool)
 	default:
 		verr = p7.Verify()
 	}
 	c.OutErr("v", verr)
+	if x.empty && trust {
+		c.Hit("fault:empty-trust-store")
+		if verr == nil {
+			x.fail("untrusted-signer-accepted", "verification against a trust store that holds NO certificate (non-nil empty pool, mode %d) accepted a SignedData (%s)", vmode, d.name)
+		}
+		return c16Res{}
+	}
 	if explicit := vmode == 2 && !m.asDigest && x.at > 0; explicit {
 		at := c16AtTimes[x.at-1]
 		switch {
@@ -971,6 +984,15 @@ func (x *c16X) judgeSed(m *c16Msg, d *c16Dlv, party, vmode, variant int) c16Res 
 			return c16Res{}
 		}
 		vf := func() error {
+			if trust && x.empty {
+				x.c.Hit("fault:empty-trust-store")
+				e := p7.VerifyWithChain(smx509.NewCertPool())
+				if e == nil {
+					x.fail("untrusted-signer-accepted", "DecryptAndVerify: verification against a trust store that holds NO certificate accepted the signers")
+					return errors.New("harness: empty trust store accepted")
+				}
+				return e
+			}
 			if trust {
 				return p7.VerifyWithChain(w.pool)
 			}
@@ -983,7 +1005,10 @@ func (x *c16X) judgeSed(m *c16Msg, d *c16Dlv, party, vmode, variant int) c16Res 
 			out, err = p7.DecryptAndVerify(cert, key, vf)
 		}
 	}
-	demand := keyOK && x.expect(m, trust, false)
+	demand := keyOK && x.expect(m, trust, false) && !(trust && x.empty)
+	if x.c.Failed() {
+		return c16Res{}
+	}
 	if err == nil {
 		// decrypted AND verified: the signature part is judged like SignedData, on the returned content
 		if legitKey || !bytes.Equal(out, m.content) {
